@@ -12,8 +12,3 @@ prop("C16",
      assumptions=["data-race freedom is outside the model (thorough tier: go test -race of TestCancel/TestRepeatedCancel as supporting evidence only)",
                   "as C05"],
      per_op_timeout="120s")
-prop("C04",
-     generators=["C04ab"],
-     rule="alpha-beta part only (temporary entry): GetMove / Analyze / AnalyzeAll over the option lattice {sort, table none/1..1024/default, null-move, slide reduction, multi-cut, dedup, precise, depth, MaxEvals, randomise window and scale, seeds, evaluator default/winner/material} on live positions of sizes 3..8 incl. low-reserve and one-legal-move positions, and engines reused across unrelated positions (stale hints); each answer checked against the legal set",
-     assumptions=["RandomizeScale > 0"],
-     per_op_timeout="120s")
